@@ -118,15 +118,27 @@ def alignment_branch(repo: Repo) -> RuleRun:
         ev.binop_hook = binop
         return snapshot(_run(ev, cp, [ch, inverted]))
 
-    for label, aligned, nb_defined, self_defined in (("aligned", True, True, False), ("anti-aligned", False, True, False), ("undefined neighbour", True, False, False), ("already defined", True, True, True)):
+    for label, aligned, nb_defined, self_defined in (
+        ("aligned", True, True, False),
+        ("anti-aligned", False, True, False),
+        ("undefined neighbour", True, False, False),
+        ("already defined", True, True, True),
+        ("aligned, two divisions equal by value", True, True, False),
+        ("anti-aligned, two divisions equal by value", False, True, False),
+    ):
         chops = [mk_chop("chopA", "start_size", "start_size"), mk_chop("chopB", "count", "c2c_expansion"), mk_chop("chopC", "end_size", "end_size")]
+        if "equal by value" in label:
+            # saw-tooth multigrading: the same division twice - both must be copied
+            chops = [mk_chop("chopS", "count", "c2c_expansion"), mk_chop("chopS", "count", "c2c_expansion"), mk_chop("chopC", "end_size", "end_size")]
         added: List[Any] = []
         graded = []
 
         def hook(ev, call: ast.Call, nm, added=added, graded=graded, aligned=aligned):
             if isinstance(call.func, ast.Attribute):
                 if call.func.attr == "add_chop" and attr_chain(call.func.value) == "self.wires":
-                    added.append(ev.eval(call.args[0]))
+                    ch_ = ev.eval(call.args[0])
+                    added.append(ch_)
+                    ev.eval(call.func.value).get("chops").append(ch_)
                     return None
                 if call.func.attr == "is_aligned":
                     return aligned
@@ -137,7 +149,7 @@ def alignment_branch(repo: Repo) -> RuleRun:
 
         this = Obj("axis", cls=axis_cls)
         this.set("is_defined", self_defined)
-        this.set("wires", Obj("mgr"))
+        this.set("wires", Obj("mgr", chops=[]))
         nb = Obj("neighbour")
         nb.set("is_defined", nb_defined)
         nbw = Obj("nbmgr")
